@@ -214,7 +214,7 @@ def check(case):
 
 
 def parts(tier):
-    return [Part("build", strategy=_case(), check=check, n={"quick": 6000, "thorough": 1500000})]
+    return [Part("build", strategy=_case(), check=check, n={"quick": 6000, "thorough": 600000})]
 
 
 MANIFEST = {
